@@ -26,6 +26,8 @@ var clockDirs = []string{
 	"go/appencryption/internal",
 	"go/appencryption/pkg/cache",
 	"go/appencryption/pkg/persistence",
+	"go/securememory/protectedmemory",
+	"go/securememory/memguard",
 }
 
 func main() {
